@@ -118,6 +118,127 @@ Proof.
     + intros [H|[[E|H] Hne]]; auto. inversion E; subst. left. right. auto.
 Qed.
 
+(* ---- unrelate: removes exactly the named pairs (relation lists hold no duplicates) *)
+Definition lists_nodup (rf : list (intr * list intr)) : Prop := Forall (fun kv => NoDup (snd kv)) rf.
+
+Lemma R_nodup rf x : lists_nodup rf -> NoDup (R rf x).
+Proof.
+  unfold R. intros H. induction H as [|[k v] r Hv _ IH]; simpl; [constructor|].
+  destruct (key_eq x k); [exact Hv|exact IH].
+Qed.
+
+Lemma lists_nodup_set x v rf : NoDup v -> lists_nodup rf -> lists_nodup (refs_set x v rf).
+Proof.
+  intros Hv H. induction H as [|[k v'] r Hk Hr IH]; simpl.
+  - constructor; [exact Hv|constructor].
+  - destruct (key_eq x k); constructor; simpl; auto.
+Qed.
+
+Lemma nodup_snoc (l : list intr) y : NoDup l -> ~ In y l -> NoDup (l ++ [y]).
+Proof.
+  induction l as [|e r IH]; simpl; intros Hn Hy.
+  - constructor; [intros []|constructor].
+  - inversion Hn as [|? ? Hne Hnr]; subst. constructor.
+    + intros Hin. apply in_app_iff in Hin. destruct Hin as [Hin|[E|[]]]; [contradiction|].
+      subst. apply Hy. left. reflexivity.
+    + apply IH; [assumption|]. intros Hin. apply Hy. right. exact Hin.
+Qed.
+
+Lemma relate1_nodup rf x y : U x -> U y -> refs_in rf -> lists_nodup rf -> lists_nodup (relate1 rf (x, y)).
+Proof.
+  intros Hx Hy Hrf Hnd. unfold relate1. fold (R rf x).
+  pose proof (R_nodup rf x Hnd) as HN. pose proof (R_in_U rf x Hrf) as HU.
+  apply lists_nodup_set; [|assumption].
+  destruct (negb (N.eqb (iid x) (iid y)) && negb (mem_intr y (R rf x))) eqn:C; [|exact HN].
+  apply andb_true_iff in C. destruct C as [_ C]. apply negb_true_iff in C.
+  apply nodup_snoc; [exact HN|]. intros Hin. apply mem_intr_In in Hin; auto. congruence.
+Qed.
+
+Lemma remove_first_spec y L : forall L', U y -> Forall U L -> NoDup L -> remove_first y L = Some L' ->
+  In y L /\ NoDup L' /\ Forall U L' /\ forall b, (In b L' <-> In b L /\ b <> y).
+Proof.
+  induction L as [|e r IH]; simpl; intros L' Hy HL Hn H; [discriminate|].
+  inversion HL as [|? ? He Hr]; subst. inversion Hn as [|? ? Hne Hnr]; subst.
+  destruct (cont_eq y e) eqn:E.
+  - inversion H; subst L'. assert (Eq : y = e) by (apply Hinj; auto). subst e.
+    split; [left; reflexivity|]. split; [exact Hnr|]. split; [exact Hr|].
+    intros b. split.
+    + intros Hb. split; [right; exact Hb|]. intros ->. contradiction.
+    + intros [[Eb|Hb] Hneq]; [exfalso; apply Hneq; symmetry; exact Eb|exact Hb].
+  - destruct (remove_first y r) as [r'|] eqn:Er; [|discriminate]. inversion H; subst L'.
+    destruct (IH r' Hy Hr Hnr eq_refl) as (I1 & I2 & I3 & I4).
+    assert (Hye : e <> y). { intros ->. rewrite cont_eq_refl in E. discriminate. }
+    split; [right; exact I1|]. split.
+    { constructor; [|exact I2]. intros Hin. apply I4 in Hin. destruct Hin as [Hin _]. contradiction. }
+    split; [constructor; assumption|].
+    intros b. simpl. rewrite I4. split.
+    + intros [Eb|[Hb Hn']]; [subst b; split; [left; reflexivity|exact Hye]|split; [right; exact Hb|exact Hn']].
+    + intros [[Eb|Hb] Hn']; [left; exact Eb|right; split; assumption].
+Qed.
+
+Lemma remove_first_none y L : U y -> Forall U L -> remove_first y L = None -> ~ In y L.
+Proof.
+  induction L as [|e r IH]; simpl; intros Hy HL H; [tauto|].
+  inversion HL as [|? ? He Hr]; subst.
+  destruct (cont_eq y e) eqn:E; [discriminate|].
+  destruct (remove_first y r) eqn:Er; [discriminate|].
+  intros [Eq|Hin]; [subst e; rewrite cont_eq_refl in E; discriminate|].
+  exact (IH Hy Hr eq_refl Hin).
+Qed.
+
+Lemma unrelate1_spec rf x y : U x -> U y -> refs_in rf -> lists_nodup rf ->
+  refs_in (unrelate1 rf (x, y)) /\ lists_nodup (unrelate1 rf (x, y)) /\
+  forall a b, U a -> U b ->
+    (In b (R (unrelate1 rf (x, y)) a) <-> In b (R rf a) /\ ~ (a = x /\ b = y)).
+Proof.
+  intros Hx Hy Hrf Hnd. unfold unrelate1.
+  pose proof (R_in_U rf x Hrf) as HL. pose proof (R_nodup rf x Hnd) as HN. unfold R in HL, HN.
+  destruct (refs_get x rf) as [L|] eqn:EL.
+  2: { split; [assumption|]. split; [assumption|]. intros a b Ha Hb. split; [|tauto].
+       intros H. split; [exact H|]. intros [Ea Eb]. subst a b. unfold R in H. rewrite EL in H. destruct H. }
+  destruct (remove_first y L) as [L'|] eqn:ER.
+  2: { split; [assumption|]. split; [assumption|]. intros a b Ha Hb. split; [|tauto].
+       intros H. split; [exact H|]. intros [Ea Eb]. subst a b. unfold R in H. rewrite EL in H.
+       exact (remove_first_none y L Hy HL ER H). }
+  destruct (remove_first_spec y L L' Hy HL HN ER) as (S1 & S2 & S3 & S4).
+  split; [apply refs_in_set; assumption|]. split; [apply lists_nodup_set; assumption|].
+  intros a b Ha Hb. destruct (key_eq a x) eqn:Eax.
+  - apply key_eq_iff in Eax; auto. subst a. rewrite R_set_same. rewrite S4. unfold R. rewrite EL. split.
+    + intros [H Hn]. split; [exact H|]. intros [_ Eb]. apply Hn. exact Eb.
+    + intros [H Hn]. split; [exact H|]. intros Eb. apply Hn. split; [reflexivity|exact Eb].
+  - assert (Hne : a <> x) by (intros ->; rewrite key_eq_refl in Eax; discriminate).
+    rewrite R_set_other by assumption. split; [|tauto].
+    intros H. split; [exact H|]. intros [Ea _]. contradiction.
+Qed.
+
+Lemma fold_unrelate1_spec ps : forall rf,
+  Forall (fun p => U (fst p) /\ U (snd p)) ps -> refs_in rf -> lists_nodup rf ->
+  refs_in (fold_left unrelate1 ps rf) /\ lists_nodup (fold_left unrelate1 ps rf) /\
+  forall a b, U a -> U b ->
+    (In b (R (fold_left unrelate1 ps rf) a) <-> In b (R rf a) /\ ~ In (a, b) ps).
+Proof.
+  induction ps as [|[x y] ps IH]; intros rf Hps Hrf Hnd; simpl.
+  - split; [assumption|]. split; [assumption|]. intros a b _ _. tauto.
+  - inversion Hps as [|? ? [Hx Hy] Hps']; subst. simpl in Hx, Hy.
+    destruct (unrelate1_spec rf x y Hx Hy Hrf Hnd) as (R1 & N1 & H1).
+    destruct (IH _ Hps' R1 N1) as (R2 & N2 & H2). split; [assumption|]. split; [assumption|].
+    intros a b Ha Hb. rewrite (H2 a b Ha Hb), (H1 a b Ha Hb). split.
+    + intros [[H Hn1] Hn2]. split; [exact H|]. intros [E|Hin]; [|contradiction].
+      inversion E; subst. apply Hn1. split; reflexivity.
+    + intros [H Hn]. split; [split; [exact H|]|].
+      * intros [Ea Eb]. subst a b. apply Hn. left. reflexivity.
+      * intros Hin. apply Hn. right. exact Hin.
+Qed.
+
+Lemma fold_relate1_nodup ps : forall rf,
+  Forall (fun p => U (fst p) /\ U (snd p)) ps -> refs_in rf -> lists_nodup rf ->
+  lists_nodup (fold_left relate1 ps rf).
+Proof.
+  induction ps as [|[x y] ps IH]; intros rf Hps Hrf Hnd; simpl; [assumption|].
+  inversion Hps as [|? ? [Hx Hy] Hps']; subst. simpl in Hx, Hy.
+  apply IH; [assumption|exact (proj1 (relate1_spec rf x y Hx Hy Hrf))|apply relate1_nodup; assumption].
+Qed.
+
 (* ---- state level *)
 Definition Lk (s : st) (a b : intr) : Prop := In b (R (refs s) a).
 Definition lookups_in_U (s : st) : Prop := forall c d t, lookup s c d = Some t -> U t.
@@ -151,6 +272,53 @@ Proof.
     destruct Hin as [E|[E|[E|[E|[]]]]]; inversion E; subst; auto; contradiction.
   - intros [H|[[[-> ->]|[-> ->]] Hne]]; [auto| |]; right; split; auto;
       unfold product; simpl; auto.
+Qed.
+
+(* unrelate of a pair withdraws exactly the links between the two objects, in both directions, and nothing else *)
+Lemma unrelate_pair_spec s c1 d1 c2 d2 s' :
+  unrelate s [(c1, d1); (c2, d2)] = Ok s' -> lookups_in_U s -> refs_in (refs s) -> lists_nodup (refs s) ->
+  exists x y, lookup s c1 d1 = Some x /\ lookup s c2 d2 = Some y /\
+    cats s' = cats s /\ refs_in (refs s') /\ lists_nodup (refs s') /\
+    forall a b, U a -> U b ->
+      (Lk s' a b <-> Lk s a b /\ ~ ((a = x \/ a = y) /\ (b = x \/ b = y))).
+Proof.
+  unfold unrelate. simpl. intros H HU Hrf Hnd.
+  destruct (lookup s c1 d1) as [x|] eqn:E1; [|discriminate].
+  destruct (lookup s c2 d2) as [y|] eqn:E2; [|discriminate].
+  inversion H; subst s'; clear H. exists x, y. simpl.
+  pose proof (HU _ _ _ E1) as Hx. pose proof (HU _ _ _ E2) as Hy.
+  assert (Hps : Forall (fun p => U (fst p) /\ U (snd p)) (product [x; y])).
+  { unfold product. simpl. repeat constructor; simpl; assumption. }
+  destruct (fold_unrelate1_spec _ _ Hps Hrf Hnd) as (Hrf' & Hnd' & Hspec).
+  split; [reflexivity|]. split; [reflexivity|]. split; [reflexivity|]. split; [exact Hrf'|]. split; [exact Hnd'|].
+  intros a b Ha Hb. unfold Lk. simpl. rewrite (Hspec a b Ha Hb).
+  assert (P : In (a, b) (product [x; y]) <-> (a = x \/ a = y) /\ (b = x \/ b = y)).
+  { unfold product. simpl. split.
+    - intros [E|[E|[E|[E|[]]]]]; inversion E; subst; auto.
+    - intros [[-> | ->] [-> | ->]]; auto. }
+  rewrite P. tauto.
+Qed.
+
+(* hence a symmetric relation graph stays symmetric under unrelate, as it does under relate *)
+Lemma unrelate_keeps_symmetry s c1 d1 c2 d2 s' :
+  unrelate s [(c1, d1); (c2, d2)] = Ok s' -> lookups_in_U s -> refs_in (refs s) -> lists_nodup (refs s) ->
+  (forall a b, U a -> U b -> (Lk s a b <-> Lk s b a)) ->
+  forall a b, U a -> U b -> (Lk s' a b <-> Lk s' b a).
+Proof.
+  intros H HU Hrf Hnd Sym a b Ha Hb.
+  destruct (unrelate_pair_spec _ _ _ _ _ _ H HU Hrf Hnd) as (x & y & _ & _ & _ & _ & _ & Sp).
+  rewrite (Sp a b Ha Hb), (Sp b a Hb Ha), (Sym a b Ha Hb). tauto.
+Qed.
+
+Lemma relate_keeps_symmetry s c1 d1 c2 d2 s' :
+  relate s [(c1, d1); (c2, d2)] = Ok s' -> lookups_in_U s -> refs_in (refs s) ->
+  (forall a b, U a -> U b -> (Lk s a b <-> Lk s b a)) ->
+  forall a b, U a -> U b -> (Lk s' a b <-> Lk s' b a).
+Proof.
+  intros H HU Hrf Sym a b Ha Hb.
+  destruct (relate_pair_spec _ _ _ _ _ _ H HU Hrf) as (x & y & _ & _ & _ & _ & Sp).
+  rewrite (Sp a b Ha Hb), (Sp b a Hb Ha), (Sym a b Ha Hb).
+  split; intros [L|[[[E1 E2]|[E1 E2]] Hne]]; auto; right; split; auto.
 Qed.
 
 Definition is_rel (r : relop) : bool := match r with Rel _ _ => true | Unrel _ _ => false end.
@@ -347,3 +515,68 @@ Proof.
   - destruct E2 as [E2 _]. destruct (E2 eq_refl) as [Hne Hd].
     destruct E1 as [_ E1]. rewrite <- E1; [reflexivity|]. split; [auto|apply declared_sym; assumption].
 Qed.
+
+(* ---- relations under unrelate: in a state whose relation lists hold registered, pairwise distinguishable objects
+   without duplicates (true of the empty introspector and preserved by relate and unrelate: the second and third
+   conjunct), unrelate of a pair withdraws exactly the links between the two objects, in both directions *)
+Theorem unrelate_withdraws_exactly (pool : list intr) s c1 d1 c2 d2 s' :
+  (forall x y, In x pool -> In y pool -> cont_eq x y = true -> x = y) ->
+  (forall c d t, lookup s c d = Some t -> In t pool) ->
+  refs_in (fun t => In t pool) (refs s) -> lists_nodup (refs s) ->
+  unrelate s [(c1, d1); (c2, d2)] = Ok s' ->
+  exists x y, lookup s c1 d1 = Some x /\ lookup s c2 d2 = Some y /\
+    refs_in (fun t => In t pool) (refs s') /\ lists_nodup (refs s') /\
+    forall a b, In a pool -> In b pool ->
+      (linked s' a b = true <-> linked s a b = true /\ ~ ((a = x \/ a = y) /\ (b = x \/ b = y))).
+Proof.
+  intros Hinj HU Hrf Hnd H.
+  destruct (unrelate_pair_spec _ Hinj _ _ _ _ _ _ H HU Hrf Hnd) as (x & y & L1 & L2 & _ & Hrf' & Hnd' & Sp).
+  exists x, y. split; [exact L1|]. split; [exact L2|]. split; [exact Hrf'|]. split; [exact Hnd'|].
+  intros a b Ha Hb.
+  rewrite (linked_Lk _ Hinj s' a b Hb Hrf'), (linked_Lk _ Hinj s a b Hb Hrf). apply Sp; assumption.
+Qed.
+
+Theorem unrelate_keeps_relations_symmetric (pool : list intr) s c1 d1 c2 d2 s' :
+  (forall x y, In x pool -> In y pool -> cont_eq x y = true -> x = y) ->
+  (forall c d t, lookup s c d = Some t -> In t pool) ->
+  refs_in (fun t => In t pool) (refs s) -> lists_nodup (refs s) ->
+  unrelate s [(c1, d1); (c2, d2)] = Ok s' ->
+  (forall a b, In a pool -> In b pool -> linked s a b = linked s b a) ->
+  forall a b, In a pool -> In b pool -> linked s' a b = linked s' b a.
+Proof.
+  intros Hinj HU Hrf Hnd H Sym a b Ha Hb.
+  destruct (unrelate_withdraws_exactly pool _ _ _ _ _ _ Hinj HU Hrf Hnd H) as (x & y & _ & _ & _ & _ & Sp).
+  pose proof (Sp a b Ha Hb) as E1. pose proof (Sp b a Hb Ha) as E2. rewrite (Sym a b Ha Hb) in E1.
+  apply Bool.eq_iff_eq_true. rewrite E1, E2. tauto.
+Qed.
+
+(* relate keeps the two state hypotheses, so they hold along any sequence of relate / unrelate from the empty state *)
+Theorem relate_keeps_relation_lists (pool : list intr) s c1 d1 c2 d2 s' :
+  (forall x y, In x pool -> In y pool -> cont_eq x y = true -> x = y) ->
+  (forall c d t, lookup s c d = Some t -> In t pool) ->
+  refs_in (fun t => In t pool) (refs s) -> lists_nodup (refs s) ->
+  relate s [(c1, d1); (c2, d2)] = Ok s' ->
+  refs_in (fun t => In t pool) (refs s') /\ lists_nodup (refs s').
+Proof.
+  intros Hinj HU Hrf Hnd H.
+  destruct (relate_pair_spec _ Hinj _ _ _ _ _ _ H HU Hrf) as (x & y & L1 & L2 & _ & Hrf' & _).
+  split; [exact Hrf'|].
+  assert (E : refs s' = fold_left relate1 (product [x; y]) (refs s)).
+  { unfold relate in H. cbn [intrs_by_pairs] in H. rewrite L1, L2 in H. injection H as E. rewrite <- E. reflexivity. }
+  rewrite E.
+  apply (fold_relate1_nodup _ Hinj); [|exact Hrf|exact Hnd].
+  unfold product. cbn [flat_map map app]. pose proof (HU _ _ _ L1). pose proof (HU _ _ _ L2). repeat constructor; simpl; assumption.
+Qed.
+
+(* non-vacuity: two registered entries related, then unrelated: the link is gone in both directions *)
+Example unrelate_example :
+  let a := mkIntr [97]%N [49]%N [120]%N 0 in
+  let b := mkIntr [98]%N [49]%N [121]%N 1 in
+  match relate (add (add init a) b) [([97]%N, [49]%N); ([98]%N, [49]%N)] with
+  | Ok s1 => match unrelate s1 [([97]%N, [49]%N); ([98]%N, [49]%N)] with
+             | Ok s2 => (linked s1 a b, linked s1 b a, linked s2 a b, linked s2 b a) = (true, true, false, false)
+             | Err _ => False
+             end
+  | Err _ => False
+  end.
+Proof. vm_compute. reflexivity. Qed.
